@@ -1,6 +1,7 @@
 """C10 check configuration (see lib/props.py for the field meanings)."""
 
 PROP = {
+    "level_text_more": 'Two hardware addresses of 8 bytes that start like the 6-byte address of another client are part of the vocabulary.',
     "thorough_scale": 4,
     "pkg": "internal/dhcpd",
     "files": ["dhcpd/c10_world_test.go", "dhcpd/c10_machine_test.go", "dhcpd/c10_regress_test.go"],
